@@ -46,9 +46,13 @@ MkInput(ptr, recv, n, bad, ret, addr, second, single, ek, eaddr) ==
               [] OTHER -> <<>>
       impls == (IF useBase THEN <<Impl("B", <<F("tick", "mut", 1, 0, "none", 12288)>>)>> ELSE <<>>)
                \o <<Impl("T", <<f1>> \o f2)>>
-      evals == IF ek = "none" THEN <<>> ELSE <<ExtVal("gv", "pub", EvalTy(ek), eaddr)>>
+      evals == IF ek = "none" THEN <<>>
+               ELSE IF ek = "two" THEN <<ExtVal("gv", "pub", TNm("u32"), 4096), ExtVal("hv", "pub", TMPtr(TNm("u16")), eaddr)>>
+               ELSE <<ExtVal("gv", "pub", EvalTy(ek), eaddr)>>
+      (* an opaque singleton: a type without storage *)
+      Eng == [TypeDef("Eng", "pub", <<>>) EXCEPT !.singleton = 262144]
   IN [ptr |-> ptr,
-      mods |-> <<[Module(<<"m">>, <<>>, (IF useBase THEN <<B>> ELSE <<>>) \o <<T, E>>)
+      mods |-> <<[Module(<<"m">>, <<>>, (IF single = "opaque" THEN <<Eng>> ELSE <<>>) \o (IF useBase THEN <<B>> ELSE <<>>) \o <<T, E>>)
                     EXCEPT !.impls = impls, !.evals = evals]>>]
 
 MCInit ==
@@ -101,6 +105,7 @@ P_C15(crate) ==
       e == CrateItemAt(crate, <<"m", "E">>)
   IN /\ t.singleton = M.defs[Len(M.defs) - 1].singleton
      /\ e.singleton = M.defs[Len(M.defs)].singleton
+     /\ (\E i \in DOMAIN M.defs : M.defs[i].name = "Eng") => CrateItemAt(crate, <<"m", "Eng">>).singleton = 262144
      /\ Len(file.evals) = Len(M.evals)
      /\ \A i \in DOMAIN M.evals :
           /\ file.evals[i].name = M.evals[i].name /\ file.evals[i].addr = M.evals[i].addr
@@ -129,6 +134,7 @@ ReplayRecord ==
                evals |-> [i \in DOMAIN M.evals |-> [name |-> M.evals[i].name, addr |-> M.evals[i].addr, vis |-> M.evals[i].vis,
                                                      ty |-> DTy(input, M, M.evals[i].ty)]],
                tsingle |-> M.defs[Len(M.defs) - 1].singleton, esingle |-> M.defs[Len(M.defs)].singleton,
+               osingle |-> IF \E i \in DOMAIN M.defs : M.defs[i].name = "Eng" THEN 262144 ELSE None,
                kf |-> <<>>],
    mirror |-> [reg |-> RegView, out |-> out]]
 
